@@ -48,10 +48,18 @@ def check(ctx):
     rets = [s for s in ast.walk(node) if isinstance(s, ast.Return)]
     top_loops = [s for s in body if isinstance(s, ast.For)]
     ok_shape = len(loops) == 1 and len(top_loops) == 1
-    ctx.require(ok_shape, "C20.O2", "exactly one loop, at the top level of crc7", f"crc7 has {len(loops)} loops ({len(top_loops)} at top level); expected one plain for loop", site=site, key="C20.O2|loops")
     # O3: purity
     globs = [s for s in ast.walk(node) if isinstance(s, (ast.Global, ast.Nonlocal))]
     ctx.require(not globs, "C20.O3", "no global/nonlocal declaration in crc7", "crc7 declares global state: its result can depend on earlier calls", site=(site[0], globs[0].lineno, site[2]) if globs else site, key="C20.O3|global")
+    plain = ok_shape and isinstance(top_loops[0].iter, ast.Name) and top_loops[0].iter.id == data and not top_loops[0].orelse and not [s for s in ast.walk(top_loops[0]) if isinstance(s, (ast.Break, ast.Continue, ast.Return))]
+    if globs:
+        return
+    if not plain:
+        # another loop form (iterator / while / helper): decide the same facts on unrollings of the whole function
+        ctx.cov["loop_form"] = "not the plain for-loop form: decided on symbolic unrollings of the whole function (lengths 0..4)"
+        return unrolled(ctx, f, site)
+    ctx.cov["loop_form"] = "plain for loop over the argument: loop-body analysis (induction over all lengths)"
+    ctx.require(ok_shape, "C20.O2", "exactly one loop, at the top level of crc7", f"crc7 has {len(loops)} loops ({len(top_loops)} at top level) and returns that bypass them; expected one pass over the data", site=site, key="C20.O2|loops")
     if not ok_shape:
         return
     loop = top_loops[0]
@@ -139,3 +147,73 @@ def check(ctx):
     ctx.sample({"case": "byte^checksum = 0x80", "expected": step8(0x80)})
     ctx.sample({"symbolic_body": [repr(p.value) for p in paths[:3]]})
     ctx.floor("case-split obligations", sum(1 for o in ctx.obligations if o[0] == "C20.O1"), 1)
+
+
+def _subst(v, mapping):
+    from ..values import num_add, num_mul
+
+    if isinstance(v, Sym):
+        return mapping.get(v, v)
+    if isinstance(v, Lin):
+        out = v.const
+        for a, c in v.terms.items():
+            out = num_add(out, num_mul(c, _subst(a, mapping)))
+        return out
+    if isinstance(v, App):
+        args = [_subst(a, mapping) for a in v.args]
+        if v.op == "xor":
+            x, y = args
+            if isinstance(x, int) and x == 0:
+                return y
+            if isinstance(y, int) and y == 0:
+                return x
+            from ..values import vkey
+
+            return App("xor", tuple(sorted(args, key=lambda t: repr(vkey(t)))))
+        return App(v.op, tuple(args))
+    return v
+
+
+def unrolled(ctx, f, site):
+    """crc7 on lists of 0..4 symbolic bytes: R(0) == 0 and R(n+1) == S(b_n ^ R(n)) with S := R(1); S is then case-split"""
+    from ..values import vkey
+
+    bs = [Sym(f"byte{i}", "num", uid=0) for i in range(4)]
+    R = []
+    for n in range(5):
+        def run(itp, w, n=n):
+            return itp.call(f, [ListV(list(bs[:n]))], {})
+
+        ps = fn.all_paths(ctx, run)
+        ctx.add("unrolled_paths", len(ps))
+        if len(ps) != 1 or ps[0].outcome != "return":
+            if any(p.outcome == "raise" for p in ps):
+                ctx.fail("C20.O2", f"crc7 raises {fn.exc_name([p for p in ps if p.outcome == 'raise'][0].value)} on a {n}-byte message", site=site, key="C20.O2|raise")
+                return
+            raise AnalysisError("crc7 is neither a plain for loop nor branch-free on symbolic unrollings: unrecognised shape")
+        R.append(ps[0].value)
+    ctx.require(isinstance(R[0], int) and not isinstance(R[0], bool) and R[0] == 0, "C20.O2", "empty message -> 0", f"crc7 of the empty message is {R[0]!r}, expected 0 (zero initial value)", site=site, key="C20.O2|init")
+    S = R[1]
+    for n in range(1, 4):
+        from ..values import App as _App
+
+        arg = _subst(_App("xor", (bs[n], R[n])), {})
+        want = _subst(S, {bs[0]: arg})
+        got = _subst(R[n + 1], {})
+        ctx.require(vkey(got) == vkey(want), "C20.O4", f"crc7 of {n + 1} bytes == step(byte{n} ^ crc7 of the first {n})", f"crc7 is not a left fold of one byte step over (byte XOR checksum): for {n + 1} bytes it computes {got!r}, the fold of the 1-byte result gives {want!r}", site=site, key=f"C20.O4|fold{n}")
+    wrong = []
+    for v in range(256):
+        it2 = Interp(ctx.program)
+        try:
+            out = it2.call(f, [ListV([v])], {})
+        except Exception as e:
+            out = f"raises {type(e).__name__}"
+        exp = step8(v)
+        if out == exp and isinstance(out, int):
+            ctx.ok("C20.O1", f"byte {v}: -> {exp}")
+        else:
+            wrong.append((v, out, exp))
+    for v, out, exp in wrong[:6]:
+        ctx.fail("C20.O1", f"crc7 of the single byte {v} is {out!r}; the bit-serial CRC-7 (poly 0x91) gives {exp}" + (f" ({len(wrong)} of 256 bytes differ)" if len(wrong) > 1 else ""), site=site, key=f"C20.O1|{v}")
+    ctx.cov["case_split_values"] = 256
+    ctx.sample({"unrolled": [repr(r) for r in R[:3]]})
